@@ -4,7 +4,8 @@ sid=$1; prop=${2:-$(python3 -c "import json;print(json.load(open('/verif/seeded/
 cd /verif
 if [ -z "$SAMVERIF_HAVE_REPO_LOCK" ]; then exec /verif/vlib/repo_lock.sh "$0" "$@"; fi
 if ! git -C /repo diff --quiet; then echo "/repo has uncommitted changes; refusing"; exit 2; fi
-git -C /repo apply /verif/seeded/$sid/patch.diff || git -C /repo apply --3way /verif/seeded/$sid/patch.diff || { echo "PATCH-DOES-NOT-APPLY seed=$sid"; git -C /repo reset -q --hard HEAD; exit 2; }
+patch=/verif/seeded/$sid/patch.diff; [ -f /verif/seeded/$sid/patch_ported.diff ] && patch=/verif/seeded/$sid/patch_ported.diff
+git -C /repo apply $patch || git -C /repo apply --3way $patch || { echo "PATCH-DOES-NOT-APPLY seed=$sid"; git -C /repo reset -q --hard HEAD; exit 2; }
 git -C /repo reset -q   # --3way stages its result: keep the fault in the working tree only
 ./check $prop --tier $tier; rc=$?
 git -C /repo reset -q --hard HEAD   # undo the fault (working tree and index)
